@@ -605,6 +605,7 @@ def run(ctx):
     joinlogic.possible_route(ctx, r12)
     c04.cache_rule(ctx, r12)
     c04.reverse_rules(ctx, r12)
+    c04.reverse_graph(ctx, r12)
     r12.floor(12)
 
     # ---- R13 transaction demarcation and the post-commit queue itself ------------
